@@ -83,3 +83,24 @@ package model
 //@ regex genFileRe within [only-reserved-or-known] "^(\./|/)?\.(datamon|conflicts|checkpoints)(/.*)?$" except "^\.\.(conflicts|checkpoints)(/.*)?$"
 //@ regex isBundleFileIndexRe equals [file-list-name] "^bundle-files-[0-9]+\.yaml$"
 //@ regex metaRe equals [descriptor-name] "^\.datamon/.*\.yaml$"
+
+// ---- parsing metadata paths back (C20: "each metadata path the system writes parses back to exactly
+// those values"). The parser splits the path at "/" into at most 7 pieces; with piece(i) = the i-th piece:
+// a path is accepted for a kind only with that kind's file name at that kind's position, and the values
+// returned are the pieces at the positions the builders put them (builders: exact concatenations above;
+// pieces of those concatenations: lemmas theory/strings/split_*.smt2).
+//@ func GetArchivePathComponents
+//@   call SplitN#1 assert [at-slashes-into-at-most-seven] $s == archivePath && $sep == "/" && $n == 7
+//@   ensures [label] ret1 == nil && part(archivePath, "/", 7, 0) == "labels" ==> nparts(archivePath, "/", 7) >= 4 && part(archivePath, "/", 7, 3) == "label.yaml" && ret0.Repo == part(archivePath, "/", 7, 1) && ret0.LabelName == part(archivePath, "/", 7, 2) && ret0.ArchiveFileName == "label.yaml"
+//@   ensures [repo] ret1 == nil && part(archivePath, "/", 7, 0) == "repos" ==> nparts(archivePath, "/", 7) >= 3 && part(archivePath, "/", 7, 2) == "repo.yaml" && ret0.Repo == part(archivePath, "/", 7, 1)
+//@   ensures [bundle] ret1 == nil && part(archivePath, "/", 7, 0) == "bundles" ==> nparts(archivePath, "/", 7) >= 4 && ret0.Repo == part(archivePath, "/", 7, 1) && ret0.BundleID == part(archivePath, "/", 7, 2) && ret0.ArchiveFileName == part(archivePath, "/", 7, 3)
+//@   ensures [diamond] ret1 == nil && part(archivePath, "/", 7, 0) == "diamonds" ==> nparts(archivePath, "/", 7) >= 4 && ret0.Repo == part(archivePath, "/", 7, 1) && ret0.DiamondID == part(archivePath, "/", 7, 2)
+//@   ensures [diamond-state] ret1 == nil && part(archivePath, "/", 7, 0) == "diamonds" && part(archivePath, "/", 7, 3) == "diamond-done.yaml" ==> ret0.IsFinalState && ret0.SplitID == ""
+//@   ensures [diamond-initial] ret1 == nil && part(archivePath, "/", 7, 0) == "diamonds" && part(archivePath, "/", 7, 3) == "diamond-running.yaml" ==> !ret0.IsFinalState && ret0.SplitID == ""
+//@   ensures [split] ret1 == nil && part(archivePath, "/", 7, 0) == "diamonds" && ret0.SplitID != "" ==> nparts(archivePath, "/", 7) >= 6 && part(archivePath, "/", 7, 3) == "splits" || ret0.SplitID == part(archivePath, "/", 7, 4)
+//@   ensures [split-id] ret1 == nil && part(archivePath, "/", 7, 0) == "diamonds" && ret0.SplitID != "" ==> ret0.SplitID == part(archivePath, "/", 7, 4)
+//@   ensures [split-state] ret1 == nil && part(archivePath, "/", 7, 0) == "diamonds" && ret0.SplitID != "" && nparts(archivePath, "/", 7) == 6 && part(archivePath, "/", 7, 5) == "split-done.yaml" ==> ret0.IsFinalState
+//@   ensures [split-descriptor-names] ret1 == nil && part(archivePath, "/", 7, 0) == "diamonds" && ret0.SplitID != "" && ret0.GenerationID == "" ==> part(archivePath, "/", 7, 5) == "" || part(archivePath, "/", 7, 5) == "split-running.yaml" || part(archivePath, "/", 7, 5) == "split-done.yaml"
+//@   ensures [diamond-descriptor-names] ret1 == nil && part(archivePath, "/", 7, 0) == "diamonds" && ret0.SplitID == "" && ret0.ArchiveFileName != "" ==> part(archivePath, "/", 7, 3) == "diamond-running.yaml" || part(archivePath, "/", 7, 3) == "diamond-done.yaml"
+//@   ensures [generation] ret1 == nil && ret0.GenerationID != "" ==> nparts(archivePath, "/", 7) == 7 && ret0.GenerationID == part(archivePath, "/", 7, 5) && ret0.ArchiveFileName == part(archivePath, "/", 7, 6) && ret0.SplitID == part(archivePath, "/", 7, 4)
+//@   ensures [unknown-kind-is-an-error] part(archivePath, "/", 7, 0) != "labels" && part(archivePath, "/", 7, 0) != "repos" && part(archivePath, "/", 7, 0) != "bundles" && part(archivePath, "/", 7, 0) != "contexts" && part(archivePath, "/", 7, 0) != "diamonds" ==> ret1 != nil
